@@ -81,6 +81,34 @@ Proof.
   apply Rmult_le_pos; [lra | left; apply exp_pos].
 Qed.
 
+Lemma Rsum_pos_exists (f : R * R -> R) l :
+  (forall x, In x l -> 0 <= f x) -> (exists x, In x l /\ 0 < f x) -> 0 < Rsum (map f l).
+Proof.
+  induction l as [|y l IH]; intros Hnn [x [Hin Hx]]; [contradiction|].
+  cbn [map Rsum]. assert (Hy := Hnn y (or_introl eq_refl)).
+  assert (Hrest : 0 <= Rsum (map f l)).
+  { clear IH Hin. induction l as [|z l IHl]; cbn [map Rsum]; [lra|].
+    assert (0 <= f z) by (apply Hnn; right; left; reflexivity).
+    assert (0 <= Rsum (map f l)) by (apply IHl; intros w [Hw|Hw]; apply Hnn; [left|right; right]; assumption). lra. }
+  destruct Hin as [Heq|Hin]; [subst; lra|].
+  assert (0 < Rsum (map f l)) by (apply IH; [intros w Hw; apply Hnn; right; exact Hw | exists x; split; assumption]). lra.
+Qed.
+
+(* a species with non-negative J and at least one level below the cutoff has Zint > 0 *)
+Lemma mono_Zint_pos (s : species R) T dE :
+  (forall JE, In JE (energy_levels s) -> 0 <= fst JE) ->
+  (exists JE, In JE (energy_levels s) /\ snd JE < ionisation_energy s - dE) ->
+  0 < mono_Zint RNum U s T dE.
+Proof.
+  intros HJ [JE [Hin Hlt]]. rewrite mono_Zint_eq_spec. unfold Zint_mono_spec.
+  assert (Hw : forall x, In x (energy_levels s) -> 0 < level_weight kB T x).
+  { intros x Hx. unfold level_weight. apply Rmult_lt_0_compat; [specialize (HJ x Hx); lra | apply exp_pos]. }
+  apply Rsum_pos_exists.
+  - intros x Hx. unfold bound_levels in Hx. apply filter_In in Hx. left. apply Hw, Hx.
+  - exists JE. split; [|apply Hw, Hin]. unfold bound_levels. apply filter_In. split; [exact Hin|].
+    destruct (Rlt_dec (snd JE) (ionisation_energy s - dE)); [reflexivity | contradiction].
+Qed.
+
 (* ---- translational, total ---- *)
 Lemma translational_Z_eq_spec (s : species R) T :
   N_a U <> 0 -> h_pl U <> 0 ->
